@@ -22,8 +22,9 @@ def fd_oracle(ck, job, res, tag, stats):
     if "ok" in r:
         ret_fd = r["ok"].get("fd")
     elif "panic" in r:
+        # the panic itself is C10's business; unwinding still drops every owned descriptor,
+        # so the table comparison applies unchanged
         stats["panics"] += 1
-        return          # C10 reports panics; an unwinding call has no table post-condition here
     new = sorted(set(after) - set(before))
     gone = sorted(set(before) - set(after))
     changed = [fd for fd in before if fd in after and before[fd][1:3] != after[fd][1:3]]
@@ -72,7 +73,15 @@ def run(ck):
             j2["id"] = j["id"] + 5000000
             j2["api"] = "c"
             capi.append(j2)
-    alljobs = base + faulted + sticky + capi
+    # descriptor 0 free (stdin closed): the library's own descriptors may be number 0
+    fd0 = []
+    for j in base:
+        if rng.random() < 0.35:
+            j2 = dict(j)
+            j2["id"] = j["id"] + 3000000
+            j2["free_fd0"] = True
+            fd0.append(j2)
+    alljobs = base + faulted + sticky + capi + fd0
     byjob = {j["id"]: j for j in alljobs}
     stats = {"oracle": 0, "panics": 0, "jobs": 0, "t1_ok": 0, "t1_bad": 0, "kinds": {}, "faulted": 0}
     cases = []
@@ -123,7 +132,7 @@ def run(ck):
         if ok:
             stats["t1_ok"] += 1
             if rep[1] > 1:
-                nontrivial.add((job["op"]["k"], tag, rep[1], tuple(rep[2:5]), "f" if "policy" in job else ""))
+                nontrivial.add((job["op"]["k"], tag, rep[1], tuple(rep[2:5]), "f" if "policy" in job else ("0" if job.get("free_fd0") else "")))
             if len(samples) < 5 and "policy" in job and rep[1] > 10:
                 samples.append({"job": J.describe(job), "deny": tag, "calls_replayed": rep[1], "opened_not_closed": leaked})
         else:
@@ -137,7 +146,7 @@ def run(ck):
         "evaluations": stats["jobs"],
         "distinct_nontrivial": len(nontrivial),
         "rule": "random trees x ops (lookups, mutators, reopen, procfs on three handle kinds) through the Rust and C API, "
-                "each also with one injected fault at a random index and with EMFILE from a random index onwards, both "
+                "each also with one injected fault at a random index, with EMFILE from a random index onwards and with descriptor 0 free (stdin closed), both "
                 "kernel feature sets; non-trivial = T1-replayed trace with more than one call; distinct by (op, feature set, length, outcome, faulted)",
         "samples": samples or [{"note": "none"}],
         "traces_validated_against_impl": stats["t1_ok"],
